@@ -382,6 +382,7 @@ Definition cert_code (c : lcase) : N :=
    1..4 = invalid certificate (mismatch: the untrusted search and the Coq meaning disagree);
    14 = a matching shift returned a record that does not satisfy its filter;
    15 = a Get or a shift handed out an int64 value that no request wrote;
+   16 = the final state of the key is an indexed record with void content;
    11/12/13 = the harness found no linearization under the specification, but the history is
    explained by the named deviation class (a violation with that signature).  A history for
    which the search finds no explanation at all is reported by the harness itself. *)
@@ -412,7 +413,15 @@ Definition handed_out_oracle (init : kst) (ops : list hop) : bool :=
                     | _ => true
                     end) ops.
 
+(* third order-independent clause: once every request has returned, a key is absent or holds a
+   value; no serial order of the alphabet leaves an indexed record with void content (a record
+   that a removal has emptied but that is still, or again, in the key index) *)
+Definition final_not_void (final : kst) : bool :=
+  match final with Some VV => false | _ => true end.
+
 Definition check_case (c : lcase) : N :=
+  if negb (final_not_void (c_final c)) then 16%N
+  else
   if negb (shiftm_oracle (c_ops c)) then 14%N
   else if negb (handed_out_oracle (c_init c) (c_ops c)) then 15%N
   else
